@@ -52,11 +52,8 @@ fn oracle_acyclic(inp: &PV, out: &PV) -> T {
     tm::and(vec![tm::iff(out.at(0).t(), acyclic), tm::iff(out.at(1).t(), acyclic)])
 }
 
-fn oracle_monogamous(inp: &PV, out: &PV) -> T {
-    if out.is_panic() {
-        return tm::FALSE;
-    }
-    let p = plain_of(inp.at(0).oh());
+/// the definition of monogamy, on the plain model
+pub fn monogamous_formula(p: &Plain) -> T {
     let all_src: Vec<T> = p.edges.iter().flat_map(|e| e.src.iter().cloned()).collect();
     let all_tgt: Vec<T> = p.edges.iter().flat_map(|e| e.tgt.iter().cloned()).collect();
     let one = ci(1);
@@ -75,11 +72,18 @@ fn oracle_monogamous(inp: &PV, out: &PV) -> T {
         let is_out = tm::or(p.t.iter().map(|r| tm::eq(*r, ci(u))).collect());
         let indeg = occ(&all_tgt, u);
         let outdeg = occ(&all_src, u);
-        // in-degree 1 (and not an input), or in-degree 0 and an input  (degree + interface count = 1)
-        cs.push(tm::or2(tm::and2(tm::eq(indeg, one), tm::not(is_in)), tm::and2(tm::eq(indeg, zero), is_in)));
-        cs.push(tm::or2(tm::and2(tm::eq(outdeg, one), tm::not(is_out)), tm::and2(tm::eq(outdeg, zero), is_out)));
+        // in-degree 1 (and not an input), or in-degree 0 and an input  (degree + interface count = 1); dead nodes are exempt
+        cs.push(tm::implies(p.alive[u], tm::or2(tm::and2(tm::eq(indeg, one), tm::not(is_in)), tm::and2(tm::eq(indeg, zero), is_in))));
+        cs.push(tm::implies(p.alive[u], tm::or2(tm::and2(tm::eq(outdeg, one), tm::not(is_out)), tm::and2(tm::eq(outdeg, zero), is_out))));
     }
-    tm::iff(out.t(), tm::and(cs))
+    tm::and(cs)
+}
+fn oracle_monogamous(inp: &PV, out: &PV) -> T {
+    if out.is_panic() {
+        return tm::FALSE;
+    }
+    let p = plain_of(inp.at(0).oh());
+    tm::iff(out.t(), monogamous_formula(&p))
 }
 
 fn oracle_degrees(inp: &PV, out: &PV) -> T {
